@@ -230,6 +230,94 @@ def _num_same(a, b):
     return a == b
 
 
+NAMING = {
+    # label: (schema text, [(device, message struct, {member: value}, expected data bytes hex)])
+    "device-camel": ('version: "3"\nstruct M { a @0: u8, b @1: i8, }\nimpl can for M { id: 1, device: "frontEcu", }\n', [("frontEcu", "M", {"a": 200, "b": -2}, "c8fe")]),
+    "device-upper": ('version: "3"\nstruct M { a @0: u8, }\nimpl can for M { id: 2, device: "ECU", }\n', [("ECU", "M", {"a": 7}, "07")]),
+    "device-snake-digits": ('version: "3"\nstruct M { a @0: u8, }\nimpl can for M { id: 3, device: "front_ecu2", }\n', [("front_ecu2", "M", {"a": 7}, "07")]),
+    "device-pascal": ('version: "3"\nstruct M { a @0: u8, }\nimpl can for M { id: 4, device: "MotorController", }\n', [("MotorController", "M", {"a": 7}, "07")]),
+    "two-devices": ('version: "3"\nstruct M { a @0: u8, }\nstruct N { c @0: u16, }\nimpl can for M { id: 5, device: "ecu", }\nimpl can for N { id: 6, device: "bms", }\n', [("ecu", "M", {"a": 7}, "07"), ("bms", "N", {"c": 258}, "0201")]),
+    "message-names": ('version: "3"\nstruct ABCMsg { a @0: u8, }\nstruct my_msg { b @0: u8, }\nstruct Msg2B { c @0: u8, }\nimpl can for ABCMsg { id: 7, device: "ecu", }\nimpl can for my_msg { id: 8, device: "ecu", }\nimpl can for Msg2B { id: 9, device: "ecu", }\n', [("ecu", "ABCMsg", {"a": 1}, "01"), ("ecu", "my_msg", {"b": 2}, "02"), ("ecu", "Msg2B", {"c": 3}, "03")]),
+    "renamed-binding": ('version: "3"\nstruct M { a @0: u8, }\nimpl can for M as Status { id: 10, device: "ecu", }\n', [("ecu", "Status", {"a": 9}, "09")]),
+    "enums-sharing-an-enumerator": ('version: "3"\nenum A { Off = 0, On = 1, }\nenum B { Off = 0, Fast = 2, }\nstruct M { a @0: A, b @1: B, }\nimpl can for M { id: 11, device: "ecu", }\n', [("ecu", "M", {"a": 1, "b": 2}, "05")]),
+    "signal-macro-names-collide": ('version: "3"\nstruct Foo { pad @0: u8, bar_x @1: u8, }\nstruct FooBar { x @0: u16, }\nimpl can for Foo { id: 12, device: "ecu", }\nimpl can for FooBar { id: 13, device: "ecu", }\n', [("ecu", "Foo", {"pad": 1, "bar_x": 200}, "01c8"), ("ecu", "FooBar", {"x": 513}, "0102")]),
+    "nested-and-array-names": ('version: "3"\nstruct In { v @0: u4, w @1: u4, }\nstruct M { in_ @0: In, arr @1: [u8, 2], }\nimpl can for M { id: 14, device: "ecu", }\n', [("ecu", "M", {"in__v": 1, "in__w": 2, "arr_0": 3, "arr_1": 4}, "210304")]),
+}
+
+
+def run_naming(S, tier):
+    """Names are input too: device, message, binding, enum and signal names of every casing style must
+    end up in C that compiles, links per device and still packs the right bytes."""
+    from fcp.parser import get_fcp_from_string
+    from fcp.error import Logger
+
+    for label, (text, msgs) in NAMING.items():
+        S.count("states")
+        S.count("transitions")
+        S.add("nontrivial", ("naming", label))
+        inp = {"text": text, "family": "naming", "case": label}
+        fcp = get_fcp_from_string(text, Logger({})).unwrap()
+        work = tempfile.mkdtemp(prefix="fcpmc-c06n-")
+        try:
+            S.count("executions")
+            try:
+                files = cbuild.generate_c(fcp, work)
+            except Exception as e:  # noqa
+                S.violation("C06.generate", "C06.generate/exception:%s/naming:%s" % (type(e).__name__, label), inp, expected="C sources", actual=str(e)[:200])
+                continue
+            devices = sorted({d for d, _m, _v, _x in msgs})
+            for dev in devices:
+                csrc = [f for f in files if f.endswith("_can.c")]
+                hdrs = [f for f in files if f.endswith("_can.h") and f != "global_can.h"]
+                # the device's source and header: found by content, not by recomputing the naming rule
+                mine = [m for d, m, _v, _x in msgs if d == dev]
+                hname = next((h for h in hdrs if all(("CanMsg%s;" % m) in files[h] or ("} CanMsg%s;" % m) in files[h] for m in mine)), None)
+                cname = next((c for c in csrc if all(("CanMsg%s " % m) in files[c] for m in mine)), None)
+                if hname is None or cname is None:
+                    S.violation("C06.generate", "C06.generate/device-files-missing/naming:%s" % label, dict(inp, device=dev), expected="a header and a source for the device", actual=sorted(files))
+                    continue
+                info = cbuild.parse_header(files[hname])
+                table = {}
+                exp = {}
+                for d, m, v, x in msgs:
+                    if d != dev:
+                        continue
+                    table["CanMsg" + m] = [v]
+                    exp["CanMsg" + m] = (v, bytes.fromhex(x))
+                missing = [t for t in table if t not in info["messages"] or not info["messages"][t]["encode"]]
+                if missing:
+                    S.violation("C06.generate", "C06.generate/message-api-missing/naming:%s" % label, dict(inp, device=dev), expected=sorted(table), actual=sorted(info["messages"]))
+                    continue
+                main_c = cbuild.make_codec_main(hname, info, table)
+                sub = tempfile.mkdtemp(prefix="b-", dir=work)
+                for fn in files:
+                    if fn.endswith(".h") or fn in (cname, "can_signal_parser.c"):
+                        shutil.copy(os.path.join(work, fn), os.path.join(sub, fn))
+                res = cbuild.compile_and_run(sub, [cname, "can_signal_parser.c"], main_c, extra_flags=("-Werror=implicit-function-declaration",))
+                S.count("executions")
+                if "compile_error" in res:
+                    S.add("outcomes", "naming-cc-error")
+                    S.violation("C06.compile", "C06.compile/cc-error/naming:%s" % label, dict(inp, device=dev), expected="compiles", actual=res["compile_error"][-700:])
+                    continue
+                enc, dec = {}, {}
+                for ln in res["stdout"].strip().split("\n"):
+                    p = ln.split()
+                    if p and p[0] == "E":
+                        enc[p[1]] = (int(p[3]), int(p[4]), bytes(int(z, 16) for z in p[5:13]))
+                    elif p and p[0] == "D":
+                        dec[p[1]] = {kv.split("=")[0]: cbuild.parse_printed(kv.split("=", 1)[1]) for kv in p[3:]}
+                for typ, (v, data) in exp.items():
+                    S.count("executions")
+                    got = enc.get(typ)
+                    if got is None or got[1] != len(data) or got[2][: len(data)] != data or dec.get(typ) != v:
+                        S.add("outcomes", "naming-differs")
+                        S.violation("C06.encode", "C06.encode/data-or-value-differs/naming:%s" % label, dict(inp, device=dev, message=typ, value=v), expected={"dlc": len(data), "data": data, "decoded": v}, actual={"frame": got, "decoded": dec.get(typ)})
+                    else:
+                        S.add("outcomes", ("naming-ok", label))
+        finally:
+            shutil.rmtree(work, ignore_errors=True)
+
+
 def run(tier):
     common.bind_repo()
     r = Run("C06", tier)
@@ -238,6 +326,7 @@ def run(tier):
     for s in pmap(make_worker(tier), chunks(list(enumerate(combos)), 12)):
         r.stats.merge(s)
     r.stats.c["transitions"] += transitions
+    run_naming(r.stats, tier)
     r.rule = (
         "states = flat CAN messages: every sequence of 1..3 signals (thorough 4 over a reduced alphabet) over {u/i 1,5,8,12,16,24,32,33,64, f32, f64, enum 2 bits, enum 3 bits} with total <= 64 bits, plus "
         "directed 5..8-signal messages; each is generated by the real fcp_can_c generator, compiled with gcc together with a generated main(), and run for every boundary value (product <= 64 else star): "
